@@ -52,6 +52,14 @@ func NewHTTPHandler(to *url.URL, reverseProxy *httputil.ReverseProxy, headerInje
 
 func (f *HTTPHandler) rewriteFunc(r *httputil.ProxyRequest) {
 	r.SetURL(f.To)
+	// ReverseProxy drops query parameters it cannot parse (e.g. "a=1;b=2")
+	// before calling Rewrite; this proxy does not interpret the query, so
+	// forward it exactly as the client sent it
+	if tq, rq := f.To.RawQuery, r.In.URL.RawQuery; tq == "" || rq == "" {
+		r.Out.URL.RawQuery = tq + rq
+	} else {
+		r.Out.URL.RawQuery = tq + "&" + rq
+	}
 	r.Out.Header["X-Forwarded-For"] = r.In.Header["X-Forwarded-For"]
 	r.SetXForwarded()
 	if md, ok := metadata.FromContext(r.In.Context()); ok && md.ConnectionState.HandshakeComplete {
